@@ -16,7 +16,7 @@ def unit():
     return Unit(
         name="u1_pae", members=["paseto-core"], package="paseto-core",
         inject=[(F, "units/u1_pae/harness.rs")], harness_path="pae::verif", allow_unsafe=True,
-        kani_flags=["--no-assertion-reach-checks"], harnesses=hs,
+        kani_flags=["--no-assertion-reach-checks"], harnesses=hs, quick_cap=9,
         assumptions=["slices handed to pre_auth_encode are real objects: each fragment shorter than 2^40 bytes (so the u64 sum of <= 4 lengths cannot overflow; the overflow check itself is an obligation)",
                      "a streaming writer that is handed the same (pointer, length) receives the same bytes"],
         trusted=["alloc::alloc::alloc as modelled by Kani (objects of symbolic size)"],
